@@ -209,16 +209,10 @@ def glb_shape(ctx, rule):
 
 def iteration(ctx, rule):
     b = ctx.body("<types::TokenIter<'a> as core::iter::traits::iterator::Iterator>::next")
-    calls = [q.shape(b.expr_of_call(t)) for bi, t in b.calls()]
-    ok = "SourceMap::get_token(arg1.i,arg1.next_idx)" in calls and any(c.startswith("Option::inspect(SourceMap::get_token(arg1.i,arg1.next_idx),closure:") for c in calls)
-    ctx.check(ok, rule, b.path, "next", "the iterator yields get_token(next_idx) and then advances", detail=str(calls))
-    cl = ctx.facts.body(b.path + "::{closure#0}", required=False)
-    ok = False
-    if cl is not None:
-        for bi, si, s, it in cl.locations():
-            if not it and s["k"] == "assign" and s["place"]["p"] and s["place"]["p"][-1].get("n") == "next_idx":
-                ok = q.shape(cl.expr_of_rvalue(s["rv"])) == "Add(1,^arg1.next_idx)"
-    ctx.check(ok, rule, b.path, "advance", "the index advances by exactly one per yielded token")
+    # (what next() returns and how it advances is decided by the accessor table, R0, for both the
+    #  `inspect` and the `?` form)
+    from rules import foundations
+    foundations.accessors(ctx, rule, ["TokenIter"], min_n=1)
     gt = ctx.body("types::SourceMap::get_token")
     calls = [q.shape(gt.expr_of_call(t)) for bi, t in gt.calls()]
     ctx.check("slice::get(arg1.tokens,arg2)" in calls, rule, gt.path, "get_token", "get_token(i) reads tokens[i] with the non-panicking get", detail=str(calls))
